@@ -25,6 +25,9 @@ def add (a b : LB) : XR := liftR (LB.add a b)
 def sub (a b : LB) : XR := liftR (LB.sub a b)
 def mul (a b : LB) : XR := liftR (LB.mul a b)
 def neg (a : LB) : XR := liftR (LB.neg a)
+def bitAnd (a b : LB) : XR := .int (LB.bitand a b)
+def bitOr (a b : LB) : XR := .int (LB.bitor a b)
+def bitXor (a b : LB) : XR := .int (LB.bitxor a b)
 
 /-- `mod` (int.rs:65): floored modulo built from the truncated remainder -/
 def mod (a b : LB) : XR :=
